@@ -24,6 +24,8 @@
      sync_req c, mid, gen      sync_resp c, err, claims
      hb c, mid, gen, err       commit c, mid, gen, err, blocks <<<<p, off>>..>>, applied
      leave c, mid, err         meta_change      hang c, what     panic c
+     sync_plan c, strategy, plan <<<<client, p>>..>>, parts <<p..>>, members <<client..>>, unknown, nosub, foreign
+                               the assignments of the leader's SyncGroup request (clause sync_plan_complete, property C08)
      coord_down                the coordinator (and seed broker) became unreachable: premise of final_commit_after_cleanup gone
      claim_fail c, p           the simulated broker failed the ListOffsets call of a claim's start (data-plane fault):
                                the claim cannot start, which ends the session like a claim that returned
@@ -38,7 +40,7 @@
      after every Close and the watchdog reports hang{what: "errors_not_closed"}; errors_closed c is the good case) *)
 EXTENDS Integers, Sequences, FiniteSets
 
-OC == {"c1", "c2"}
+OC == {"c1", "c2", "c3"}
 OP == 0..2
 NoPair == <<"", -1>>
 
@@ -66,6 +68,7 @@ ObsInit ==
    cur |-> [c \in OC |-> NoPair],            \* identity the coordinator issued last
    ids |-> [c \in OC |-> {}],                \* member ids ever issued to the client
    fenced |-> [c \in OC |-> FALSE],          \* last join/sync answer was UNKNOWN_MEMBER_ID
+   leaderless |-> -1,                        \* partition the metadata lists without a leader (its claim cannot start)
    cdown |-> FALSE,                          \* the coordinator was made unreachable (no commit can arrive)
    hung |-> FALSE,                           \* the watchdog fired: the scenario is torn down by force afterwards
    bad |-> {}]
@@ -83,6 +86,7 @@ HandlerWhileOut(o, c) == W(o.ph[c] = "out", "consume_returns_last")
 OReset(o, e) ==
   [ObsInit EXCEPT !.initial = e.initial, !.loglen = e.loglen, !.logstart = e.logstart,
                   !.auto = e.auto, !.hbretry = e.hbretry,
+                  !.leaderless = IF "leaderless" \in DOMAIN e THEN e.leaderless ELSE -1,
                   !.store = [p \in OP |-> IF p + 1 \in DOMAIN e.committed THEN e.committed[p + 1] ELSE -1]]
 
 OConsumeCall(o, e) ==
@@ -96,6 +100,8 @@ OConsumeCall(o, e) ==
 OSetup(o, e) ==
   LET c == e.c IN
   [o EXCEPT !.ph[c] = "setup", !.claims[c] = ToSetO(e.claims),
+            \* a claim on the leaderless partition cannot start (code behaviour: ConsumePartition fails): the session ends by it
+            !.sessEnd[c] = @ \/ (o.leaderless \in ToSetO(e.claims)),
             !.bad = HandlerWhileOut(o, c) \cup W(o.ph[c] \in {"setup", "cleanup"}, "setup_once_before_claims")]
 
 OClaimStart(o, e) ==
@@ -184,6 +190,15 @@ OCommit(o, e) ==
 OLeave(o, e) ==
   [o EXCEPT !.bad = W(e.mid \notin o.ids[e.c], "requests_carry_issued_identity")]
 
+\* C08 on the wire: the assignments the leader hands to SyncGroup cover every partition the cluster metadata lists for
+\* the subscribed topic exactly once, go only to known members subscribed to it, and name no other topic / partition
+SyncPlanOk(e) ==
+  LET plan == ToSetO(e.plan)
+      parts == ToSetO(e.parts) IN
+  /\ e.unknown = 0 /\ e.nosub = 0 /\ e.foreign = 0
+  /\ \A x \in plan : x[2] \in parts /\ x[1] \in ToSetO(e.members)
+  /\ \A p \in parts : Cardinality({i \in DOMAIN e.plan : e.plan[i][2] = p}) = 1
+
 \* the watchdog found the client blocked: in Consume (or between calls), or in Close after Consume had returned
 \* (a client that sits in a healthy session nobody asked to end is only collateral of somebody else's hang)
 HangClause(o, e) ==
@@ -214,6 +229,7 @@ ObsStep(o, e) ==
     [] e.ev = "leave" -> OLeave(o, e)
     [] e.ev = "meta_change" -> [o EXCEPT !.metaChanged = TRUE, !.bad = {}]
     [] e.ev = "hang" -> [o EXCEPT !.hung = TRUE, !.bad = {HangClause(o, e)}]
+    [] e.ev = "sync_plan" -> [o EXCEPT !.bad = W(~SyncPlanOk(e), "sync_plan_complete")]
     [] e.ev = "coord_down" -> [o EXCEPT !.cdown = TRUE, !.bad = {}]
     [] e.ev = "claim_fail" -> [o EXCEPT !.sessEnd[e.c] = TRUE, !.bad = {}]
     [] e.ev = "panic" -> [o EXCEPT !.bad = {"consume_panic"}]
